@@ -275,6 +275,59 @@ def r18_5(ctx):
                     shape_b = (r, lst[0])
         if shape_b is not None:
             other = [o for o in other if o != norm(shape_b[0])]
+    # shape C: _d, index = min((D(entry(i)), i) for i in range(len(self._colors))); return index
+    # (tuples compare by distance first, then by index: the lowest index among equal distances - the element min(key=) picks)
+    shape_c = None
+    if mincall is None and shape_b is None:
+        from ..astutil import alias_map as _am, expand_alias as _ea
+        al_ = _am(f.node)
+        for x in walk_local(f.node):
+            if isinstance(x, ast.Assign) and isinstance(x.targets[0], ast.Tuple) and len(x.targets[0].elts) == 2 and isinstance(x.value, ast.Call) and call_name(x.value) == "min" and len(x.value.args) == 1 and not x.value.keywords and isinstance(x.value.args[0], (ast.GeneratorExp, ast.ListComp)):
+                ge = x.value.args[0]
+                gen = ge.generators[0]
+                if (len(ge.generators) == 1 and not gen.ifs and isinstance(ge.elt, ast.Tuple) and len(ge.elt.elts) == 2 and isinstance(gen.target, ast.Name) and norm(ge.elt.elts[1]) == gen.target.id
+                        and isinstance(gen.iter, ast.Call) and call_name(gen.iter) == "range" and len(gen.iter.args) == 1 and norm(_ea(gen.iter.args[0].args[0], al_) if isinstance(gen.iter.args[0], ast.Call) and gen.iter.args[0].args else gen.iter.args[0]) == "self._colors"):
+                    idxname = norm(x.targets[0].elts[1])
+                    if any(isinstance(r.value, ast.Name) and r.value.id == idxname for r in rets):
+                        shape_c = (x, ge)
+        if shape_c is not None:
+            other = [o for o in other if o != f"return {norm(shape_c[0].targets[0].elts[1])}"]
+    if shape_c is not None:
+        x, ge = shape_c
+        dcall = ge.elt.elts[0]
+        keyfn = None
+        if isinstance(dcall, ast.Call) and isinstance(dcall.func, ast.Name) and len(dcall.args) == 1:
+            for n in walk_local(f.node):
+                if isinstance(n, ast.FunctionDef) and n.name == dcall.func.id:
+                    keyfn = n
+        entry_ok = keyfn is not None and isinstance(dcall.args[0], (ast.Subscript, ast.Call)) and "self._colors" in norm(_ea(dcall.args[0].value if isinstance(dcall.args[0], ast.Subscript) else dcall.args[0].func, al_)) and norm(dcall.args[0].slice if isinstance(dcall.args[0], ast.Subscript) else dcall.args[0].args[0]) == ge.generators[0].target.id
+        ctx.check(not other and entry_ok, f.fq, short(x), f"{f.module.relpath}:{x.lineno}", "match returns the index of the first minimum of (distance, index) over every palette index",
+                  f"Palette.match does not take the minimum of (distance(entry i), i) over every index of self._colors: {other}")
+        if not entry_ok:
+            return
+        q_names = None
+        for n in walk_local(f.node):
+            if isinstance(n, ast.Assign) and isinstance(n.targets[0], ast.Tuple) and norm(n.value) == color_p:
+                q_names = [e.id for e in n.targets[0].elts]
+        ep = keyfn.args.args[0].arg
+        e_names = None
+        for n in ast.walk(keyfn):
+            if isinstance(n, ast.Assign) and isinstance(n.targets[0], ast.Tuple) and norm(n.value) == ep:
+                e_names = [e.id for e in n.targets[0].elts]
+        if q_names is None or e_names is None or len(q_names) != 3 or len(e_names) != 3:
+            raise AnalysisError("Palette.match: cannot find the component unpacks of the query colour and the palette entry")
+        pairs = 0
+        for n in ast.walk(keyfn):
+            if isinstance(n, ast.BinOp) and isinstance(n.op, (ast.Sub, ast.Add)) and isinstance(n.left, ast.Name) and isinstance(n.right, ast.Name):
+                l, r_ = n.left.id, n.right.id
+                if (l in q_names and r_ in e_names) or (l in e_names and r_ in q_names):
+                    qi = q_names.index(l) if l in q_names else q_names.index(r_)
+                    ei = e_names.index(r_) if r_ in e_names else e_names.index(l)
+                    pairs += 1
+                    ctx.check(qi == ei, f.fq, norm(n), f"{f.module.relpath}:{n.lineno}", f"component {qi} of the query paired with component {ei} of the entry",
+                              f"distance mixes component {qi} of the query with component {ei} of the palette entry: `{norm(n)}`")
+        ctx.floor(pairs, 3, "component differences in the distance closure")
+        return
     ctx.check((mincall is not None or shape_b is not None) and not other, f.fq, "return min(...)", f.where, "match returns the result of builtin min (or a cached copy of it)",
               f"Palette.match returns something other than the builtin min(...) over the palette indices: {other}")
     if mincall is None and shape_b is None:
